@@ -604,7 +604,11 @@ where
     let mut outputs = HashMap::new();
     let output = match output_arg {
         // We can't cache compilation that doesn't go to a file
-        None => PathBuf::from(Path::new(&input).with_extension("o").file_name().unwrap()),
+        None => match Path::new(&input).with_extension("o").file_name() {
+            Some(name) => PathBuf::from(name),
+            // e.g. `-x c -c ..`: no name to derive the object file from
+            None => cannot_cache!("no output file name"),
+        },
         Some(o) => o,
     };
     if split_dwarf {
